@@ -667,8 +667,30 @@ def g_einsum(b):
     return b.call("einsum", [expr] + [R(o) for o in ops], kw=kw, sp=rng.choice(["mg", "np"]))
 
 
+def tensorize_index(b, enc, prob=0.25):
+    """Replaces integer / boolean index ARRAYS of an encoded index by constant index TENSORS holding the same values (a tensor is a
+    legitimate index object; with a plain array in its place nothing may change)."""
+    rng = b.rng
+    if isinstance(enc, list) and enc and enc[0] == "a" and enc[1] != "float64" and rng.random() < prob and int(np.prod(enc[2], dtype=int)) > 0:
+        n = b.leaf(tuple(enc[2]), dtype=enc[1], values=np.array(enc[3], dtype=enc[1]).reshape(enc[2]), layout="C", prefix="i")
+        b.meta[n]["tensor"] = False     # an index, not offered to the node generators as an operand
+        return R(n)
+    if isinstance(enc, list) and enc and enc[0] in ("t", "l") and enc[0] == "t":
+        return ["t", [tensorize_index(b, e, prob) for e in enc[1]]]
+    return enc
+
+
 def g_getitem(b, adv_prob=0.4):
     rng = b.rng
+    if rng.random() < 0.06:
+        # a LONG integer index (>= 32 entries) without literally repeated values that still addresses elements twice through negative
+        # aliases (wrap padding x[arange(-k, n)]), on a fresh 1-d leaf
+        n, k = rng.randint(30, 42), rng.randint(2, 5)
+        x = b.leaf((n,))
+        idx = np.arange(-k, n)
+        if rng.random() < 0.5:
+            idx = idx[np.array(rng.sample(range(len(idx)), len(idx)))]
+        return b.call("getitem", [R(x), tensorize_index(b, enc_index(idx.astype(rng.choice(["int64", "int32"]))))], sp="mg")
     x = pick(b)
     if x is None:
         return None
@@ -683,7 +705,7 @@ def g_getitem(b, adv_prob=0.4):
         return None
     if np.size(r) == 0:
         return None
-    return b.call("getitem", [R(x), enc_index(ix)], sp="mg")
+    return b.call("getitem", [R(x), tensorize_index(b, enc_index(ix))], sp="mg")
 
 
 def g_where(b):
